@@ -100,6 +100,29 @@ func valEq(a, b Value) bool {
 	case atomVal:
 		y, ok := b.(atomVal)
 		return ok && x == y
+	case map[string]Value:
+		y, ok := b.(map[string]Value)
+		if !ok || len(x) != len(y) {
+			return false
+		}
+		for k, v := range x {
+			w, ok := y[k]
+			if !ok || !valEq(v, w) {
+				return false
+			}
+		}
+		return true
+	case []Value:
+		y, ok := b.([]Value)
+		if !ok || len(x) != len(y) {
+			return false
+		}
+		for i := range x {
+			if !valEq(x[i], y[i]) {
+				return false
+			}
+		}
+		return true
 	}
 	evalFail("cannot compare %T", a)
 	return false
@@ -264,6 +287,17 @@ func eval(e Expr, env *EvalEnv) Value {
 			evalFail("index %s out of range (len %d)", i, len(seq))
 		}
 		return seq[i.Int64()]
+	case *ESel:
+		x := eval(e.X, env)
+		m, ok := x.(map[string]Value)
+		if !ok {
+			evalFail("field %s of %T", e.F, x)
+		}
+		v, ok := m[e.F]
+		if !ok {
+			evalFail("no field %s", e.F)
+		}
+		return v
 	case *EQuant:
 		return evalQuant(e, env, 0)
 	case *ECall:
